@@ -666,6 +666,15 @@ func (s *svcClient) runOp(op SvcOp) {
 		}
 		s.mu.Unlock()
 	case "rebuild", "cancel", "dispose":
+		// rebuild needs the client to answer on-end; a dispose issued by a client must reach the service before
+		// stdin closes (otherwise the context would stay alive, and with it the process, by design): both are
+		// operations the closer waits for. If the closer is already at work it disposes the context itself.
+		if op.Kind != "cancel" {
+			if !s.enterCB() {
+				return
+			}
+			defer s.leaveCB()
+		}
 		s.mu.Lock()
 		sl := &s.slots[op.Slot%3]
 		key, live := sl.key, sl.live
@@ -675,12 +684,6 @@ func (s *svcClient) runOp(op SvcOp) {
 		s.mu.Unlock()
 		if key == 0 || (!live && op.Kind == "dispose") {
 			return
-		}
-		if op.Kind == "rebuild" {
-			if !s.enterCB() {
-				return
-			}
-			defer s.leaveCB()
 		}
 		r, e := s.request(op.Kind, key, map[string]interface{}{"key": key})
 		if e == "no-response" {
@@ -877,7 +880,7 @@ func runService1(c *SvcCase) svcOutcome {
 			out.ExitErr = err.Error()
 		}
 	case <-time.After(30 * time.Second):
-		s.problem("the service process was still running 30 s after stdin was closed and every request answered")
+		s.problem("the service process was still running 30 s after stdin was closed (every context had been disposed)")
 		cmd.Process.Kill()
 		<-exited
 	}
